@@ -3,7 +3,7 @@
 From Coq Require Import NArith List Bool.
 From RQ Require Import Base.Outcome Base.Ints Base.ListX Spec.Linear Spec.Layout Spec.Code Spec.Tuple
   Model.Octet Model.FieldFast Model.SysConst Model.Tuple Model.CMatrix Model.Layout Model.Slab
-  Model.Encoder Model.Decoder.
+  Model.Encoder Model.Decoder Model.CertRun.
 Import ListNotations.
 Open Scope N_scope.
 Open Scope outcome_scope.
@@ -210,3 +210,24 @@ Definition run_slab_replay (m : mode) (a : list N) : list N :=
          s' <- replay m ops (mkSlab syms (N.to_nat T) None) ;;
          r <- slab_read s' nread 0 ;;
          Ok (concat r)).
+
+(* ---- certificate check through the extracted model (validation for K' beyond the in-kernel bound) ---- *)
+(* [K, plan values...] -> 1 if cert_ok *)
+Definition run_cert_ok (a : list N) : list N :=
+  [1; if cert_ok (argn a 0) (skipn 1 a) then 1 else 0].
+
+(* [T, data(K*T)..., then L*T bytes of intermediate symbols] with K given first: [K, T, data, C] ->
+   1 if the given symbols satisfy every row of the model's constraint system for that block *)
+Definition run_check_intermediate (a : list N) : list N :=
+  let K := argn a 0 in let T := argn a 1 in
+  let Tn := N.to_nat T in
+  match sys_params K, enc_matrix K with
+  | Ok sp, Ok A =>
+      let data := firstn (N.to_nat (K * T)) (skipn 2 a) in
+      let cbytes := skipn (2 + N.to_nat (K * T)) a in
+      let C := chunks T cbytes in
+      let D := create_d sp (chunks T data) Tn in
+      [1; if forallb (fun rd => vec_eqb (lincomb fmul Tn (fst rd) C) (snd rd)) (combine A D)
+             && Nat.eqb (length C) (N.to_nat (spL sp)) then 1 else 0]
+  | _, _ => [0; 0]
+  end.
